@@ -115,6 +115,7 @@ func runC02(c *core.Ctx) {
 	defer g.Restore()
 	now := samlgen.T0
 	sp := harness.NewSP(harness.SPOpt{})
+	spIDPInit := harness.NewSP(harness.SPOpt{AllowIDPInit: true})
 	tols := c02Tols[:5]
 	if c.Thorough() {
 		tols = c02Tols
@@ -129,6 +130,8 @@ func runC02(c *core.Ctx) {
 		lay      harness.Layout
 		formKind int
 		form     func(time.Time) string
+		idpInit  bool // SP configured with AllowIDPInitiated (the windows must hold regardless)
+		noDest   bool // Response without Destination (allowed when the Response itself is unsigned)
 	}
 	build := func(s spec, t tol) ([]byte, string) {
 		fm := func(kind int, tm time.Time) string {
@@ -139,6 +142,9 @@ func runC02(c *core.Ctx) {
 		}
 		resp := samlgen.DefaultResponse()
 		resp.IssueInstant = samlgen.S(fm(kRespII, instantAt(kRespII, s.pos[kRespII], now, t)))
+		if s.noDest {
+			resp.Destination = nil
+		}
 		a := samlgen.DefaultAssertion()
 		a.ID = "id-assertion-varied"
 		a.IssueInstant = samlgen.S(fm(kAssII, instantAt(kAssII, s.pos[kAssII], now, t)))
@@ -171,7 +177,11 @@ func runC02(c *core.Ctx) {
 	runOne := func(t *core.T, s spec, tl tol, key string) {
 		saml.MaxIssueDelay, saml.MaxClockSkew = tl.delay, tl.skew
 		doc, wantID := build(s, tl)
-		a, err := parseXML(sp, doc, []string{samlgen.ReqID})
+		thesp := sp
+		if s.idpInit {
+			thesp = spIDPInit
+		}
+		a, err := parseXML(thesp, doc, []string{samlgen.ReqID})
 		t.Impl(1)
 		checkAPIContract(t, a, err)
 		v := core.MustAccept
@@ -184,7 +194,7 @@ func runC02(c *core.Ctx) {
 				allFar = false
 			}
 		}
-		if !allFar || s.form != nil || s.second || s.confs != 1 {
+		if !allFar || s.form != nil || s.second || s.confs != 1 || s.idpInit || s.noDest {
 			t.NonTrivial()
 		}
 		t.Outcome(harness.ErrClass(err))
@@ -223,6 +233,33 @@ func runC02(c *core.Ctx) {
 						tl := tl
 						c.Case(key, func(t *core.T) { runOne(t, s, tl, key) })
 					}
+				}
+			}
+		}
+	}
+
+	// the same lattice with options that must not matter for the windows: AllowIDPInitiated, and an unsigned Response without Destination
+	c.Group("window-product-option-axes")
+	for _, tl := range tols[:2] {
+		for p := 0; p < 1024; p++ {
+			var pos [5]int
+			x := p
+			for i := 0; i < 5; i++ {
+				pos[i] = x % 4
+				x /= 4
+			}
+			for _, opt := range []struct {
+				name            string
+				idpInit, noDest bool
+				lay             harness.Layout
+			}{{"idpinit/R", true, false, harness.Layout{SignResponse: true}}, {"idpinit/A", true, false, harness.Layout{SignAssertion: true}},
+				{"nodest/A", false, true, harness.Layout{SignAssertion: true}}, {"idpinit+nodest/A", true, true, harness.Layout{SignAssertion: true}}} {
+				for _, confs := range []int{1, 3} {
+					key := fmt.Sprintf("opt=%s/tol=%s/resp=%s/ass=%s/nb=%s/nooa=%s/scd=%s/confs=%d", opt.name, tl.name,
+						posNames[pos[0]], posNames[pos[1]], posNames[pos[2]], posNames[pos[3]], posNames[pos[4]], confs)
+					s := spec{pos: pos, confs: confs, lay: opt.lay, idpInit: opt.idpInit, noDest: opt.noDest}
+					tl := tl
+					c.Case(key, func(t *core.T) { runOne(t, s, tl, key) })
 				}
 			}
 		}
